@@ -590,9 +590,27 @@ fn drive_glue(out: &mut impl Write, r: &mut Rng, budget: usize, props: &Value, b
         let fe: Vec<(i64, Vec<usize>, Vec<usize>)> = (0..ne).map(|_| (0, rand_seq(r, n1, 2), rand_seq(r, n1, 2))).collect();
         let f = pack(&vec![0i64; n1], &fe, &fs, &ft);
         let g = pack(&vec![0i64; n2], &[], &gs, &gt);
-        let which = r.below(8);
+        let which = r.below(11);
         let (op, args) = if which < 5 {
             ("strict.compose", json!({"f": f, "g": g}))
+        } else if which == 8 || which == 9 {
+            // associativity around this gluing: a third operand whose source interface (non-injective, as long as
+            // g's target interface) glues again, optionally with a hyperedge
+            let n3 = r.range(1, 3);
+            let hs: Vec<usize> = (0..gt.len()).map(|_| r.below(n3)).collect();
+            let ht = rand_seq(r, n3, 2);
+            let he: Vec<(i64, Vec<usize>, Vec<usize>)> = (0..r.below(2)).map(|_| (1, rand_seq(r, n3, 2), rand_seq(r, n3, 2))).collect();
+            let h = pack(&vec![0i64; n3], &he, &hs, &ht);
+            ("law.assoc", json!({"f": f, "g": g, "h": h}))
+        } else if which == 10 {
+            // interchange with a second, smaller gluing whose boundary legs are both non-injective
+            let (m1, m2) = (r.range(1, 3), r.range(1, 3));
+            let bl = r.range(2, 4);
+            let ht: Vec<usize> = (0..bl).map(|_| r.below(m1)).collect();
+            let ks: Vec<usize> = (0..bl).map(|_| r.below(m2)).collect();
+            let h = pack(&vec![0i64; m1], &[], &rand_seq(r, m1, 2), &ht);
+            let k = pack(&vec![0i64; m2], &[(1, rand_seq(r, m2, 2), rand_seq(r, m2, 2))], &ks, &rand_seq(r, m2, 2));
+            ("law.interchange", json!({"f": f, "g": g, "h": h, "k": k}))
         } else if which < 7 {
             // the same identifications as pending unifications of one lax diagram, then quotient
             let n = n1 + n2;
@@ -911,6 +929,51 @@ fn drive_arrays(out: &mut impl Write, r: &mut Rng, budget: usize, props: &Value,
             4 => ("arr.cumulative_sum", json!({"a": a})),
             5 => ("arr.bincount", json!({"a": a, "size": 7})),
             6 => ("arr.zero", json!({"a": a})),
+            7 if r.coin(1, 4) => {
+                // merge orders that are hard for union-find: tournaments (pairs, pairs of pairs, ...), long paths
+                // in both directions, stars, on 8..70 nodes, plus a few stray nodes and edges
+                let n0 = *r.pick(&[8usize, 16, 32, 33, 48, 64]);
+                let extra = r.below(6);
+                let nn = n0 + extra;
+                let mut perm: Vec<usize> = (0..nn).collect();
+                if r.coin(1, 2) {
+                    r.shuffle(&mut perm);
+                }
+                let mut e: Vec<(usize, usize)> = vec![];
+                match r.below(4) {
+                    0 => {
+                        let mut step = 1;
+                        while step < n0 {
+                            let mut i = 0;
+                            while i + step < n0 {
+                                e.push((i, i + step));
+                                i += 2 * step;
+                            }
+                            step *= 2;
+                        }
+                    }
+                    1 => e.extend((0..n0 - 1).map(|i| (i, i + 1))),
+                    2 => e.extend((0..n0 - 1).rev().map(|i| (i + 1, i))),
+                    _ => e.extend((1..n0).map(|i| (0, i))),
+                }
+                if r.coin(1, 3) {
+                    let drop = r.below(e.len());
+                    e.remove(drop); // two components instead of one
+                }
+                for _ in 0..r.below(3) {
+                    e.push((r.below(nn), r.below(nn)));
+                }
+                if r.coin(1, 2) {
+                    for p in e.iter_mut() {
+                        if r.coin(1, 2) {
+                            *p = (p.1, p.0);
+                        }
+                    }
+                }
+                let src: Vec<usize> = e.iter().map(|p| perm[p.0]).collect();
+                let tgt: Vec<usize> = e.iter().map(|p| perm[p.1]).collect();
+                ("arr.connected_components", json!({"src": src, "tgt": tgt, "n": nn}))
+            }
             7 => {
                 // sparse and dense edge lists over 4..12 nodes
                 if r.coin(1, 2) {
